@@ -79,6 +79,16 @@ def generate(rng, tier):
                 op['ins'][0][1] = rng.choice(['elem', 'tens'])
                 if rng.random() < 0.5:
                     op['foreign_first'] = True
+            elif nin == 2 and kind == 'tensor' and rng.random() < 0.08:
+                # a LARGER operand the element broadcasts against: a plain
+                # array of shape (2,) + element shape (NumPy gives a result of
+                # that shape; a discretized element has no partition for it
+                # and documents the rejection)
+                op['bigger_second'] = rng.getrandbits(16)
+                op['ins'][0][1] = rng.choice(['elem', 'tens'])
+                op['out'] = None
+                if rng.random() < 0.5:
+                    op['foreign_first'] = True
             elif nin == 2 and kind == 'power' and rng.random() < 0.4:
                 # second operand from the base space (element or plain
                 # array): NumPy broadcasts it against every part
@@ -449,6 +459,15 @@ class Run(object):
                 m_in.reverse()
                 r_in.reverse()
             self.ctx.fired('foreign-dtype-array-operand')
+        elif 'bigger_second' in op and len(ins) == 2 and not outs:
+            g = np_rng('bigger', op['bigger_second'])
+            big = (g.standard_normal((2,) + m_in[0].shape) * 3).astype(
+                m_in[0].dtype)
+            m_in[1], r_in[1] = big, big.copy()
+            if op.get('foreign_first'):
+                m_in.reverse()
+                r_in.reverse()
+            self.ctx.fired('broadcast-against-larger-array')
         kw = {}
         if op.get('dtype'):
             kw['dtype'] = op['dtype']
@@ -949,11 +968,23 @@ def _execute_power(plan, ctx, base):
             raise Violation('C17', 'C17/out-identity/power/legacy',
                             'x.ufuncs.{}(out=out) did not return out'.format(
                                 op['uf']))
-        if not hasattr(res, 'parts') or len(res.parts) != len(m_res):
+        mixed_elem = (not legacy and op.get('base_second') == 'elem' and
+                      'scalar_second' not in op)
+        if hasattr(res, 'parts') and len(res.parts) == len(m_res):
+            part_arrays = [np.asarray(p.asarray()) for p in res.parts]
+        elif mixed_elem and hasattr(res, 'asarray') and \
+                np.asarray(res.asarray()).shape[:1] == (len(m_res),):
+            # X from a power space mixed with an ELEMENT v of its base space:
+            # the call is handled by v, and the (n, ...) result comes back
+            # wrapped in a space of v's kind -- "of the same kind" as one of
+            # the operands; the numbers are judged as usual
+            ra = np.asarray(res.asarray())
+            part_arrays = [ra[k] for k in range(len(m_res))]
+            ctx.probe('power-mixed-with-base-element-result-of-base-kind')
+        else:
             raise Violation('C17', 'C17/result-type/power/' + op['t'],
                             'result of {} is {!r:.60}'.format(op['uf'], res))
-        for k, (p, m) in enumerate(zip(res.parts, m_res)):
-            pa = np.asarray(p.asarray())
+        for k, (pa, m) in enumerate(zip(part_arrays, m_res)):
             if out is None and pa.dtype != m.dtype:
                 raise Violation('C17', 'C17/result-dtype/power/' + op['t'],
                                 '{} on {} power-space elements: result dtype '
